@@ -1,9 +1,10 @@
 #!/bin/sh
-# usage: tools/try_mutant.sh <patch.diff> <ID> [tier]   — apply a patch to /repo, run the check, undo.
+# usage: tools/try_mutant.sh <patch.diff> <ID> [tier] [extra check args]
+# Applies the patch to a scratch COPY of /repo (never to /repo itself), runs the check against the copy, removes the copy.
 set -u
-P="$1"; ID="$2"; TIER="${3:-quick}"
-git -C /repo apply "$P" || { echo "patch does not apply"; exit 3; }
-cd /verif && ./check "$ID" --tier "$TIER" 2>&1 | grep -v "^WARN\|chttp2" | tail -6
-rc=$?
-git -C /repo checkout -- .
-git -C /repo status --short | head -3
+P="$1"; ID="$2"; TIER="${3:-quick}"; shift; shift; [ $# -gt 0 ] && shift
+M=/root/scratch/repo_mut_$$
+mkdir -p /root/scratch && rsync -a --exclude .git /repo/ "$M"/ || exit 3
+( cd "$M" && patch -p1 -s < "$P" ) || { echo "patch does not apply"; rm -rf "$M"; exit 3; }
+cd /verif && VERIF_REPO="$M" PYTHONPATH="$M" timeout 3000 ./check "$ID" --tier "$TIER" "$@" 2>&1 | grep -v "^WARN\|chttp2" | tail -6
+rm -rf "$M"
